@@ -43,11 +43,15 @@ Print Assumptions backends_agree_on_names.
 (* SQL COMPILE CORRECTNESS (single-SELECT fragment).  Model/SqlCompile.compile transcribes
    SqlImpl.compile_ast (Query record + inlined definitions); sem_query is the meaning of the SELECT it
    denotes (WHERE, GROUP BY with aggregates over the group, HAVING, ORDER BY, LIMIT / OFFSET, select
-   list).  For EVERY database and every AST accepted by flat_ok - source, select, rename, element-wise
-   mutate (also after summarize), element-wise filter (WHERE before, HAVING after a summarize), group_by
-   / ungroup, one summarize of aggregates over element-wise arguments, one arrange, slice_head chains,
-   alias(keep) - the statement returns exactly the reference table: same names, same column order, same
-   rows in the same order.  The tie (L3, harness/sqlcompile.py) compares compile with the real
+   list; window functions range over the rows that pass WHERE).  For EVERY database and every AST accepted
+   by flat_ok - source, select, rename, element-wise mutate (also after summarize), mutate with WINDOW /
+   aggregate functions (partition_by, arrange=, any element-wise combination of them; while the query is
+   neither summarized, ordered nor limited), element-wise filter (WHERE before, HAVING after a summarize;
+   never after a window column), group_by / ungroup, one summarize of aggregates over element-wise
+   arguments, one arrange (also by window columns), slice_head chains, alias(keep) - the statement returns
+   exactly the reference table: same names, same column order, same rows in the same order.  The window
+   case rests on Proofs/EvalRel.subst_rel: inlining the definitions (what compile_col_expr does with
+   sqa_expr) preserves the value of EVERY expression form.  The tie (L3, harness/sqlcompile.py) compares compile with the real
    compile_ast on every generated single-source pipeline and counts the cases that satisfy flat_ok. *)
 Theorem sql_compile_correct : forall d a c,
   compile a = Some c -> flat_ok a = true -> sem_query d c = export_ref (sem_ref d a).
@@ -88,4 +92,21 @@ Example flat_pipeline :
   /\ pflat_ok [("t", [[VInt 1; VInt 1]; [VInt 1; VInt 2]; [VInt 2; VInt 5]; [VInt 3; VInt (-7)]])] a = true
   /\ f_rows (export_ref (sem_ref [("t", [[VInt 1; VInt 1]; [VInt 1; VInt 2]; [VInt 2; VInt 5]; [VInt 3; VInt (-7)]])] a))
      = [[VInt 2; VInt 6; VInt 12]; [VInt 1; VInt 5; VInt 10]].
+Proof. vm_compute. repeat split; reflexivity. Qed.
+
+(* ... and by a pipeline with window functions: a partitioned sum, a row number ordered inside the
+   partition, an element-wise use of both, an arrange by a window column and a slice *)
+Example window_pipeline :
+  let d := [("t", [[VInt 1; VInt 4]; [VInt 1; VInt 2]; [VInt 2; VInt 5]; [VInt 2; VInt (-7)]; [VInt 2; VInt 0]])] in
+  let a := SliceHead (Arrange (Mutate (Mutate (Filter
+             (Source "t" [("g", 1%N); ("x", 2%N)])
+             [EFn Op_greater_than [ECol 2%N; ELit (VInt (-9))] false [] []])
+             [("w", 3%N, EFn Op_sum [ECol 2%N] true [ECol 1%N] []);
+              ("r", 4%N, EFn Op_row_number [] true [ECol 1%N] [(ECol 2%N, (false, None))])])
+             [("z", 5%N, EFn Op_add [ECol 3%N; ECol 4%N] false [] [])])
+             [(ECol 3%N, (true, Some true)); (ECol 4%N, (false, None))]) 4 0 in
+  flat_ok a = true /\ pflat_ok d a = true
+  /\ f_rows (export_ref (sem_ref d a))
+     = [[VInt 1; VInt 2; VInt 6; VInt 1; VInt 7]; [VInt 1; VInt 4; VInt 6; VInt 2; VInt 8];
+        [VInt 2; VInt (-7); VInt (-2); VInt 1; VInt (-1)]; [VInt 2; VInt 0; VInt (-2); VInt 2; VInt 0]].
 Proof. vm_compute. repeat split; reflexivity. Qed.
